@@ -67,6 +67,14 @@ def answer (toks : List String) : String :=
     let d : Nat → Nat → Option Nat := fun i j => (D.getD i []).getD j none
     join [showRat (globalEfficiency n d), vec n fun i => showOptRat (closeness n d i),
           vec n fun i => showRat (nsiCloseness n d (fun _ => 1) i)] ";"
+  | ["vuln", m] =>
+    let M := boolMat m; let n := M.length; let a := adjOf M
+    vec n fun i => showOptRat (localVulnerability n a i)
+  | ["upath", m] =>
+    let M := boolMat m; let n := M.length; let a := adjOf M
+    let D := (List.range n).map fun i => bfs n a i
+    let d : Nat → Nat → Option Nat := fun i j => (D.getD i []).getD j none
+    join [showOptRat (avgPathLengthU n d), toString (diameter n d)] ";"
   | ["wpath", dm] =>
     let D := optRatMat dm; let n := D.length; let d := optMatFn D
     join [showOptRat (avgPathLength n d), vec n fun i => showRat (closenessW n d i)] ";"
